@@ -18,7 +18,10 @@ let run_line (line : string) : string =
       let p = { p_relay = r; p_qtype = n_of_int v.(11); p_downenc = n_of_int v.(12); p_rawmode = (v.(14) <> 0);
                 p_autofrag = (v.(15) <> 0); p_fragsize = n_of_int v.(16); p_maxlen = nat_of_int v.(17);
                 p_topdomain = topdomain } in
-      let o = negotiate p no_flip no_flip (n_of_int 1) in
+      (* the random-case member is evaluated with the oracle that flips every letter: with the real
+         relay's fair coins a test without a visible flip has probability < 2^-30 *)
+      let flip_all = (fun _ -> true) in
+      let o = negotiate p flip_all flip_all (n_of_int 1) in
       let d = int_of_n o.o_down in
       Printf.sprintf "%d qtype=%d up=%s down=%c edns=%d conn=%d frag=%d" (int_of_n o.o_rv) (int_of_n o.o_qtype)
         (upname (int_of_n o.o_up)) (if d = 32 then '_' else Char.chr d) (if o.o_edns then 1 else 0)
